@@ -1,6 +1,6 @@
 SPECIFICATION Spec
 CONSTANTS
-  MaxLen = 6
+  MaxLen = 5
 INVARIANT JsonGrammar
 INVARIANT LexerGrammar
 INVARIANT PrintLaws
